@@ -136,6 +136,12 @@ def configs(tier):
             out.append(dict(kind='shortcut', users=users, order=order))
     out += [dict(kind='invalid', cls=c) for c in INVALID]
     out += [dict(kind='frozen', path=p) for p in ('explicit', 'implicit', 'explicit+run', 'after-stop')]
+    # references by name created between an explicit finalize() and the start (events and filters
+    # are no blocks and no connections; they are resolved when the simulation starts)
+    for ref in LATE_REFS:
+        for target in ('s1', '_not_s0', 'nosuch', 'c0'):
+            for finalizes in (1, 2):
+                out.append(dict(kind='late-ref', ref=ref, target=target, finalizes=finalizes))
     return out
 
 
@@ -911,8 +917,104 @@ def run_frozen(cfg, acc):
     return viol
 
 
+LATE_REFS = ('event', 'extevent', 'ifoutput', 'add_output', 'notifinit')
+
+
+def run_late_ref(cfg, acc):
+    viol = []
+    ref, target = cfg['ref'], cfg['target']
+    # what the name stands for: an SBlock, the (existing) inverter of a shortcut, nothing, a CBlock
+    is_dest = ref in ('event', 'extevent')
+    valid = target == 's1' or (target in ('_not_s0', 'c0') and ref in ('ifoutput', 'add_output'))
+    label = f"{ref} naming {target!r}, created after an explicit Circuit.finalize()"
+    with Sim() as sim:
+        circuit = sim.circuit
+        s0 = edzed.Input('s0', initdef=1)
+        s1 = edzed.Input('s1', initdef=0)
+        c0 = edzed.FuncBlock('c0', func=lambda a, b: (a, b)).connect(s0, '_not_s0')
+        sink = edzed.Input('sink', initdef=None)
+        circuit.finalize()
+        obj = flt = None
+        try:
+            if ref == 'event':
+                obj = edzed.Event(target, 'put')
+            elif ref == 'extevent':
+                obj = edzed.ExtEvent(target, 'put')
+            elif ref == 'ifoutput':
+                flt = edzed.IfOutput(target)
+            elif ref == 'add_output':
+                flt = edzed.DataEdit.add_output('k', target)
+            else:
+                flt = edzed.NotIfInitialized(target)
+            if flt is not None:
+                obj = edzed.Event(sink, 'put', efilter=flt)
+            for _ in range(cfg['finalizes'] - 1):
+                circuit.finalize()
+        except Exception as err:    # pylint: disable=broad-except
+            if valid:
+                viol.append(('valid-program-rejected', f"{label}: {err!r}"))
+            acc.outcome(('late-ref', ref, target, cfg['finalizes'], 'ctor-error'))
+            return viol
+        res = {}
+
+        async def driver():
+            task = asyncio.create_task(circuit.run_forever())
+            try:
+                await circuit.wait_init()
+                res['started'] = True
+            except Exception as err:    # pylint: disable=broad-except
+                res['started'] = False
+                res['start_err'] = repr(err)
+            if res['started']:
+                try:
+                    if is_dest:
+                        res['dest'] = obj.dest
+                        res['ret'] = obj.send(7) if ref == 'extevent' else obj.send(s0, value=7)
+                        res['s1'] = s1.output
+                    else:
+                        res['ret'] = obj.send(s0, value=7)
+                        res['sink'] = sink.output
+                        res['data'] = flt({'value': 7})
+                except Exception as err:    # pylint: disable=broad-except
+                    res['use_err'] = repr(err)
+            await stop(circuit)
+            del task
+        sim.run(driver())
+        acc.outcome(('late-ref', ref, target, cfg['finalizes'], repr(sorted(res.items()))))
+        acc.state(('late-ref', ref, valid, res.get('started')))
+        if not valid:
+            if res['started']:
+                viol.append(('invalid-accepted',
+                             f"{label}: the name cannot be resolved to a block of the required kind, "
+                             f"but the simulation started ({res})"))
+            return viol
+        if not res['started']:
+            viol.append(('valid-program-rejected', f"{label}: start failed: {res['start_err']}"))
+        elif 'use_err' in res:
+            viol.append(('unresolved-name', f"{label}: using it in the running circuit raised {res['use_err']}"))
+        elif is_dest:
+            if res['dest'] is not s1 or res['s1'] != 7:
+                viol.append(('event-dest', f"{label}: dest {res['dest']!r}, s1 = {res['s1']!r} after send(7)"))
+        else:
+            ctl = circuit.findblock(target)
+            exp_pass = {'ifoutput': bool(ctl.output), 'add_output': True, 'notifinit': False}[ref]
+            if bool(res['ret']) != exp_pass or (res['sink'] == 7) != exp_pass:
+                viol.append(('filter-control-block',
+                             f"{label}: control block output {ctl.output!r}, send() -> {res['ret']!r}, "
+                             f"destination output {res['sink']!r}"))
+            if ref == 'add_output' and (not isinstance(res['data'], dict) or res['data'].get('k') != ctl.output):
+                viol.append(('filter-control-block', f"{label}: filter result {res['data']!r}, control "
+                             f"block output {ctl.output!r}"))
+    return viol
+
+
 def run_config(cfg):
     acc = Acc()
+    if cfg['kind'] == 'late-ref':
+        acc.execs += 1
+        for sig, msg in run_late_ref(cfg, acc):
+            acc.violation(f"C15:{sig}:late-ref", msg, cfg=cfg)
+        return acc
     if cfg['kind'] == 'prog':
         for path in ('explicit', 'implicit'):
             viol = run_prog(cfg, path, acc)
